@@ -21,7 +21,7 @@ func init() {
 			"R3": "eligibility definition",
 			"R4": "has-chips refresh pairing for every bankroll writer",
 			"R5": "waiting flag on seating in both assigners; predicate false for short deck / uninitialised; the waiting arc is exact: short deck → false, wrapping arc → true iff some i in (dealer, bb+N) has i%N == target, else target < bb ∧ target > dealer; asked as arc(dealer seat, bb seat, own seat)",
-			"R6": "rotation rewrites the waiting flag only for occupied, non-eligible seats; re-evaluated with arc(a value stored as the new dealer seat, the value stored as the new BB seat, the seat itself)",
+			"R6": "rotation rewrites the waiting flag for exactly the occupied, non-eligible seats (only them, and every one of them); re-evaluated with arc(a value stored as the new dealer seat, the value stored as the new BB seat, the seat itself)",
 			"R7": "refusal propagates out of open as the open-failed error; no known-nil error returned (inverted test)",
 			"R8": "seated-in pairing (as C03.R7)",
 			"R9": "seat-manager side of eligibility: UpdatePlayerHasChips writes the given flag to HasChips of the seat found for the id; IsPlayerActive answers Active() of that seat and (false, err) for an unknown id; InitPositions marks initialised only after a successful initialisation and never initialises twice",
@@ -323,6 +323,36 @@ func checkC05(c *Ctx) {
 				nonAct := guardedBy(gs, false, func(s *Sym) bool { return s.IsCall("SeatPlayer.Active") })
 				occ := nilGuard(gs, false, func(s *Sym) bool { return s.Kind == "rangeval" })
 				c.Check(nonAct && occ, "R6", "rotation-waiting-flag@"+branchOf(p, ss), p.InstrPos(ss.Instr), "only for occupied, non-eligible seats", "the rotation rewrites the waiting flag of an eligible player: a dealt-in player could be made to wait again")
+				// … and for ALL of them: inside the loop over the seats nothing but "occupied" and "not eligible"
+				// conditions the re-evaluation (a further test — has chips, seated in, already waiting — would leave
+				// some non-eligible seat with the flag it had when it was last dealt in)
+				extra := ""
+				var loop map[*ssa.BasicBlock]bool
+				for _, b := range f.Blocks {
+					for _, in := range b.Instrs {
+						if _, isNext := in.(*ssa.Next); isNext && b.Dominates(ss.Instr.Block()) {
+							if l := naturalLoop(b); l[ss.Instr.Block()] {
+								loop = l
+							}
+						}
+					}
+				}
+				for _, g := range gs {
+					if g.If == nil || loop == nil || !loop[g.If.Block()] {
+						continue // a condition of the rotation's branch, outside the loop
+					}
+					cs := g.Cond.Strip()
+					isActive := cs.IsCall("SeatPlayer.Active")
+					isOcc := false
+					if cm := g.AsCmp(); cm != nil && (cm.R.IsNil() || cm.L.IsNil()) {
+						isOcc = true
+					}
+					isLoop := cs.Kind == "extract" && cs.Args[0].Strip().Kind == "next"
+					if !isActive && !isOcc && !isLoop {
+						extra = g.String()
+					}
+				}
+				c.Check(extra == "" && loop != nil, "R6", "rotation-waiting-flag:every-non-eligible-seat@"+branchOf(p, ss), p.InstrPos(ss.Instr), "every occupied, non-eligible seat is re-evaluated", "the rotation re-evaluates the waiting flag only under the further condition "+extra+": some non-eligible seat keeps a stale flag and is dealt in (or kept waiting) wrongly once it becomes eligible again")
 			}
 		}
 	}
